@@ -30,6 +30,9 @@ GATES = ["msm_helper_checked", "harm_helper_checked", "other_checked", "reserved
 _IDX = re.compile(r"^(.*?)_(\d{2,3})$")
 
 
+_EARLIER = {}
+
+
 def check_msm(ctx, identity, enc, labelmsm, params):
     from pyrtcm import RTCMMessage
     from pyrtcm.rtcmhelpers import parse_msm
@@ -40,6 +43,16 @@ def check_msm(ctx, identity, enc, labelmsm, params):
     except Exception as e:
         ctx.violation("msm-helper-raised", f"{identity}: parse_msm raised {type(e).__name__}: {e}", params)
         return
+    # the result handed out for the PREVIOUS message of this identity must still read as it did then
+    prev = _EARLIER.get(identity)
+    if prev is not None and repr(prev[0]) != prev[1]:
+        ctx.violation("msm-earlier-result-changed", f"{identity}: the result returned for an earlier message changed when "
+                      f"parse_msm was called for another message: was {prev[1][:120]}.., now {repr(prev[0])[:120]}..",
+                      dict(params, earlier=prev[2]))
+        return
+    if prev is not None:
+        ctx.hit("earlier_results_rechecked")
+    _EARLIER[identity] = (out, repr(out), enc.payload.hex())
     if not out or len(out) != 3:
         ctx.violation("msm-helper-empty", f"{identity}: parse_msm returned {out!r} for an MSM message", params)
         return
@@ -223,7 +236,7 @@ def run(ctx):
         if refmodel.is_msm_identity(identity):
             for j in range(600 if ctx.quick else 12000):
                 seedtag = rng.getrandbits(40)
-                ms = refmodel.MSTRATS[j % len(refmodel.MSTRATS)]
+                ms = refmodel.MSTRATS[(j + k) % len(refmodel.MSTRATS)]  # (the first shape seen differs per identity)
                 force = None
                 if j % 10 == 9:
                     force = {"DF394": (1 << 64) - 1, "DF395": 1 << rng.randrange(32), "DF396": (1 << 64) - 1}
@@ -242,6 +255,27 @@ def run(ctx):
                 except refmodel.DefinitionError:
                     break
                 check_other(ctx, enc.payload, "defined", {"kind": "other", "payload": enc.payload.hex()})
+    # frames from the repository's recorded logs (realistic constellations, epochs, text)
+    from vf import common
+
+    for k_, (name_, fr_) in enumerate(common.recorded_frames()):
+        if not ctx.mine(k_):
+            continue
+        pl_ = fr_[3:-3]
+        ident_ = common.expected_identity(pl_)
+        par = {"kind": "recorded", "payload": pl_.hex(), "identity": ident_}
+        try:
+            enc_ = refmodel.decode(ident_, pl_) if ident_ in ids else None
+        except Exception:
+            enc_ = None
+        if enc_ is not None and refmodel.is_msm_identity(ident_):
+            check_msm(ctx, ident_, enc_, 1, par)
+            check_msm(ctx, ident_, enc_, 2, par)
+        elif enc_ is not None and ident_ == "4076_201":
+            check_harm(ctx, enc_, par)
+        else:
+            check_other(ctx, pl_, "recorded", par)
+        ctx.hit("recorded_frames_checked")
     # 4076_201 over all (N, M <= N) and layer counts; divided between workers
     combos = [(n, m) for n in range(1, 17) for m in range(1, n + 1)]
     for idx, (n, m) in enumerate(combos):
@@ -260,6 +294,21 @@ def run(ctx):
             if len(enc.meta.get("layers", [])) != layers:
                 continue  # did not fit 1023 bytes with that many layers
             check_harm(ctx, enc, {"kind": "harm", "payload": enc.payload.hex()})
+            if layers <= 2:
+                # a re-issued model: SAME epoch / IOD / provider / solution / layer shape, other coefficients, parsed right
+                # after the first (whose message object has been freed by then)
+                f2 = dict(force)
+                for k_ in ("IDF003", "IDF004", "IDF005", "IDF006", "IDF007", "IDF008", "IDF009"):
+                    if k_ in enc.expected_dict():
+                        f2[k_] = int(enc.expected_dict()[k_]) if isinstance(enc.expected_dict()[k_], (int, bool)) else None
+                f2 = {a: b for a, b in f2.items() if b is not None}
+                try:
+                    enc2 = refmodel.build("4076_201", random.Random(seedtag + 1), "random", "small", force=f2)
+                except (RuntimeError, refmodel.DefinitionError, KeyError):
+                    enc2 = None
+                if enc2 is not None and len(enc2.meta.get("layers", [])) == layers and enc2.payload != enc.payload:
+                    check_harm(ctx, enc2, {"kind": "harm", "payload": enc2.payload.hex(), "after": enc.payload.hex()})
+                    ctx.hit("harm_reissued_model_pairs")
     # helper vs the message's own flat attributes for arbitrary degree / order fields
     for _ in range(ctx.n(600, 20000)):
         nl = rng.randint(1, 3)
@@ -277,12 +326,25 @@ def run(ctx):
 
 def replay(ctx, p):
     payload = bytes.fromhex(p["payload"])
+    if p["kind"] == "recorded":
+        ident = p.get("identity")
+        if ident and refmodel.is_msm_identity(ident):
+            enc = refmodel.decode(ident, payload)
+            check_msm(ctx, ident, enc, 1, p)
+            check_msm(ctx, ident, enc, 2, p)
+        elif ident == "4076_201":
+            check_harm(ctx, refmodel.decode(ident, payload), p)
+        else:
+            check_other(ctx, payload, "replay", p)
+        return
     if p["kind"] == "msm":
         enc = refmodel.decode(p["identity"], payload)
         check_msm(ctx, p["identity"], enc, 1, p)
     elif p["kind"] == "harmflat":
         check_harm_flat(ctx, [tuple(x) for x in p["layers"]], p["seedtag"])
     elif p["kind"] == "harm":
+        if p.get("after"):
+            check_harm(ctx, refmodel.decode("4076_201", bytes.fromhex(p["after"])), {k: v for k, v in p.items() if k != "after"})
         check_harm(ctx, refmodel.decode("4076_201", payload), p)
     else:
         check_other(ctx, payload, "replay", p)
